@@ -607,4 +607,46 @@ theorem std_dims_errors' :
     · rfl
 
 
+
+theorem length_flatMap_const {α β : Type} (l : List α) (f : α → List β) (c : Nat)
+    (h : ∀ a ∈ l, (f a).length = c) : (l.flatMap f).length = l.length * c := by
+  induction l with
+  | nil => simp
+  | cons a t ih =>
+    rw [List.flatMap_cons, List.length_append, h a List.mem_cons_self,
+      ih (fun b hb => h b (List.mem_cons_of_mem _ hb)), List.length_cons, Nat.succ_mul, Nat.add_comm]
+
+theorem range12_length (W : Int) : (range12 W).length = ((W + 11) / 12).toNat := by
+  simp [range12]
+
+/-- a machine of whole triads lists exactly three Ethernet chips per 12 x 12 block,
+i.e. one per board -/
+theorem eth_coords_length' (w h rx ry : Int) (hw : w % 12 = 0) (hh : h % 12 = 0) :
+    (ethCoords w h rx ry).length = (w / 12).toNat * ((h / 12).toNat * 3) := by
+  unfold ethCoords
+  simp only []
+  have eW : (w + 11) / 12 * 12 = w := by omega
+  have eH : (h + 11) / 12 * 12 = h := by omega
+  rw [eW, eH]
+  have lW : (range12 w).length = (w / 12).toNat := by rw [range12_length]; congr 1; omega
+  have lH : (range12 h).length = (h / 12).toNat := by rw [range12_length]; congr 1; omega
+  rw [length_flatMap_const _ _ ((h / 12).toNat * 3), lW]
+  intro x hx
+  rw [length_flatMap_const _ _ 3, lH]
+  intro y hy
+  rw [mem_range12 _ _ hw] at hx
+  rw [mem_range12 _ _ hh] at hy
+  have hwp : 0 < w := by omega
+  have hhp : 0 < h := by omega
+  have key : ∀ d : Pt, (if pymod (x + d.1 + pymod (pymod rx 12) 12) w < w ∧ pymod (y + d.2 + ry) h < h then
+      some (pymod (x + d.1 + pymod (pymod rx 12) 12) w, pymod (y + d.2 + ry) h) else none) =
+      some (pymod (x + d.1 + pymod (pymod rx 12) 12) w, pymod (y + d.2 + ry) h) := by
+    intro d
+    rw [if_pos]
+    rw [pymod_pos _ hwp, pymod_pos _ hhp]
+    exact ⟨Int.emod_lt_of_pos _ hwp, Int.emod_lt_of_pos _ hhp⟩
+  simp only [key]
+  rw [List.filterMap_eq_map', List.length_map]
+  exact ethTriple_perm.length_eq
+
 end Rig.C19
